@@ -34,6 +34,15 @@ package multicodec
 // (ensureInit belongs to registration; the List* functions, which build a slice in a loop, are not swept.)
 //@ func (*Registry).ensureInit()
 //@   inline
+// Listing reads the table into a slice made for the call (C20: nothing shared is written).
 //@ func (*Registry).ListEncoders() (l)
+//@   requires r != nil
+//@   assigns[C20] nothing
+//@   ensures[C20] fresh(l)
+//@   loop 0 invariant fresh(encoders)
 //@ func (*Registry).ListDecoders() (l)
+//@   requires r != nil
+//@   assigns[C20] nothing
+//@   ensures[C20] fresh(l)
+//@   loop 0 invariant fresh(decoders)
 //@ sweep[C20] assigns nothing: LookupEncoder(), LookupDecoder()
